@@ -752,6 +752,14 @@ class Interp:
             else:
                 self.boundaries.add("call of a callable object `%s` (%s)" % (name, self.ast.at(n)))
             return
+        # ---- operator() of a closure whose lambda expression is known (a lambda handed to a helper as `F &&fn`, then `fn()`):
+        # run the lambda's body in its defining context (its `this`, its captures), not as a method of an unknown object
+        if objexpr is not None and name == "operator()" and n.get("kind") == "CXXOperatorCallExpr":
+            l = self.lv(objexpr, cx)
+            if l.lam is not None:
+                self.ev(objexpr, cx, "r")
+                self.set_res(n, cx, self.run_lambda(l.lam[0], l.lam[1], args, n, cx) or LV())
+                return
         objl = None
         ot = ot2 = ""
         if objexpr is not None:
@@ -1126,6 +1134,18 @@ class Interp:
                 for a in args[1:]:
                     self.ev(a, cx, "r")
                 return self.spawn(named, cx, n)
+            # std::thread(&Class::method, object, args…): the new thread runs object->method(copies of args…)
+            first = self.strip(args[0])
+            if first.get("kind") == "UnaryOperator" and first.get("opcode") == "&" and len(args) >= 2 and first.get("inner"):
+                ref = self.strip(first["inner"][0])
+                rd = ref.get("referencedDecl", {}) if ref.get("kind") == "DeclRefExpr" else {}
+                d = self.fn_def(rd.get("id")) if rd.get("kind") == "CXXMethodDecl" else None
+                if d is not None and not d.get("isImplicit"):
+                    self.ev(args[1], cx, "r")
+                    objl = self.lv(args[1], cx)
+                    env = {}
+                    self.bind_params(d, args[2:], cx, env)
+                    return self.spawn_method(d, objl.obj, env, n)
             if len(args) == 1 and re.match(r"(std::)?thread\b", (desugared(self.strip(args[0])) or qt(self.strip(args[0]))).replace("const ", "")):
                 return self.ev(args[0], cx, "w")        # move construction from another std::thread
             self.unknown(n, "std::thread started with something that is not a lambda")
@@ -1246,6 +1266,28 @@ class Interp:
         except Terminated:
             pass
         finally:
+            self.active.pop()
+            self.stack.pop()
+            self.guards, self.conds, self.spawned, self.ctor_objs, self.cleanups = saved
+
+    def spawn_method(self, d, this, env, site):
+        """like spawn, the thread's entry being a member function"""
+        saved = (self.guards, self.conds, self.spawned, self.ctor_objs, self.cleanups)
+        self.guards, self.conds, self.spawned, self.ctor_objs, self.cleanups = [], [], True, [], []
+        self.stack.append("new-thread " + short(self.ast.qual(d)))
+        key = ("spawn", d.get("id"), this)
+        if key in self.active:
+            self.stack.pop()
+            self.guards, self.conds, self.spawned, self.ctor_objs, self.cleanups = saved
+            return
+        self.active.append(key)
+        saved_scope = self.scope_depth
+        try:
+            self.run_function(d, Ctx(this, env, d, None))
+        except Terminated:
+            pass
+        finally:
+            self.scope_depth = saved_scope
             self.active.pop()
             self.stack.pop()
             self.guards, self.conds, self.spawned, self.ctor_objs, self.cleanups = saved
